@@ -494,9 +494,19 @@ def cases_cfg(invariants=("BuilderOK",)):
             + "CHECK_DEADLOCK FALSE\n")
 
 
-def run_world(chk, tag, world, module="Cases", invariants=("BuilderOK",), replay_args=(), timeout=3000):
-    """TLC enumerates the world's cases, the harness replays them; returns the harness result"""
+_cases_cache = {}
+
+
+def enumerate_cases(chk, tag, world, module, invariants, timeout):
+    """run TLC on the world (once per identical world in this process) and leave world.json / cases.ndjson in the tag's directory"""
     wd = sub(tag)
+    key = hashlib.sha1((module + "|" + ",".join(invariants) + "|" + json.dumps(world, sort_keys=True)).encode()).hexdigest()
+    if key in _cases_cache:
+        src = _cases_cache[key]
+        for f in ("world.json", "cases.ndjson"):
+            shutil.copy(os.path.join(src, f), os.path.join(wd, f))
+        log("%s: reusing the cases TLC enumerated for %s" % (tag, os.path.basename(src)))
+        return wd
     r = run_tlc(module, cases_cfg(invariants), wd, files={"world.json": world}, timeout=timeout)
     chk.add_tlc(r)
     if r.violation:
@@ -504,6 +514,13 @@ def run_world(chk, tag, world, module="Cases", invariants=("BuilderOK",), replay
     with open(os.path.join(wd, "cases.ndjson"), "w") as fh:
         for c in r.cases:
             fh.write(json.dumps(c) + "\n")
+    _cases_cache[key] = wd
+    return wd
+
+
+def run_world(chk, tag, world, module="Cases", invariants=("BuilderOK",), replay_args=(), timeout=3000):
+    """TLC enumerates the world's cases, the harness replays them; returns the harness result"""
+    wd = enumerate_cases(chk, tag, world, module, invariants, timeout)
     harness(["replay", "-world", os.path.join(wd, "world.json"), "-cases", os.path.join(wd, "cases.ndjson"),
              "-out", os.path.join(wd, "replay.json")] + list(replay_args))
     res = json.load(open(os.path.join(wd, "replay.json")))
@@ -520,14 +537,7 @@ def run_relate(chk, tag, world, mode, invariants=("BuilderOK",), module="Cases",
     """TLC enumerates the world's trees; the harness records observation groups of the real code for them;
     TLC (spec/Rel.tla) validates every group against the law the specification states for it.
     Returns (summary, list of bad groups)."""
-    wd = sub(tag)
-    r = run_tlc(module, cases_cfg(invariants), wd, files={"world.json": world}, timeout=timeout)
-    chk.add_tlc(r)
-    if r.violation:
-        raise Infra("model invariant %s violated in %s:\n%s" % (r.violation, tag, r.out[-2500:]))
-    with open(os.path.join(wd, "cases.ndjson"), "w") as fh:
-        for c in r.cases:
-            fh.write(json.dumps(c) + "\n")
+    wd = enumerate_cases(chk, tag, world, module, invariants, timeout)
     harness(["relate", "-mode", mode, "-world", os.path.join(wd, "world.json"), "-cases", os.path.join(wd, "cases.ndjson"),
              "-groups", os.path.join(wd, "groups.ndjson"), "-out", os.path.join(wd, "relate.json")] + list(extra))
     summ = json.load(open(os.path.join(wd, "relate.json")))
